@@ -155,6 +155,59 @@ theorem cast_f32_close (clip : Bool) (img r : List Rat) (h : castImage .f32 clip
   · intro hc
     exact (clip_spec .f32 _).2.1 (hr.2 hc _ (List.getElem_mem hi))
 
+/-- float32: an integer photon count below `2^24` is written exactly. -/
+theorem cast_f32_exact_small_int (n : Int) (h : n.natAbs < 2 ^ 24) : astype .f32 (n : Rat) = (n : Rat) :=
+  roundF32_int_exact n h
+
+example : astype .f32 (16777215 : Int) = 16777215 := cast_f32_exact_small_int _ (by decide)
+/-- … and `2^24 + 1` is the first integer that is not (it is written as `2^24`). -/
+example : astype .f32 16777217 = 16777216 := by decide +kernel
+
+/-- float32: whatever is written lies in the finite float32 range (no overflow to infinity) — the cast refuses or
+    clamps what lies outside, and rounding keeps what lies inside inside. -/
+theorem cast_f32_in_range (clip : Bool) (img r : List Rat) (h : castImage .f32 clip img = .ok r) :
+    ∀ v ∈ r, InRange .f32 v := by
+  have hne : img ≠ [] := by
+    intro h0; rw [h0, cast_empty] at h; cases h
+  have hr : ∃ g : Rat → Rat, r = img.map (fun v => roundF32 (g v)) ∧ ∀ v ∈ img, InRange .f32 (g v) := by
+    cases clip with
+    | true =>
+      rw [cast_clips .f32 img hne] at h
+      cases h
+      exact ⟨clipTo DType.f32.lo DType.f32.hi, rfl, fun v _ => (clip_spec .f32 v).1⟩
+    | false =>
+      have hall := (cast_succeeds_iff .f32 img hne).mp ⟨r, h⟩
+      rw [cast_fits .f32 false img hne hall] at h
+      cases h
+      exact ⟨id, rfl, hall⟩
+  obtain ⟨g, hg, hin⟩ := hr
+  intro v hv
+  rw [hg, List.mem_map] at hv
+  obtain ⟨w, hw, rfl⟩ := hv
+  have hb := hin w hw
+  have habs : |g w| ≤ f32Max := by
+    rw [abs_le]; exact ⟨by simpa [DType.lo] using hb.1, by simpa [DType.hi] using hb.2⟩
+  have := abs_le.mp (roundF32_in_range (g w) habs)
+  exact ⟨by simpa [DType.lo] using this.1, by simpa [DType.hi] using this.2⟩
+
+/-- float32 in the normal range: relative rounding error at most `2^-24`. -/
+theorem f32_relative_error (x : Rat) (h : pow2 (-126) ≤ |x|) : |roundF32 x - x| ≤ |x| * pow2 (-24) := by
+  have h1 := roundF32_error x
+  have h2 := ulpF32_le x h
+  have e : pow2 (-24) = pow2 (-23) / 2 := by
+    rw [pow2_eq_zpow, pow2_eq_zpow]
+    rw [show (-24 : Int) = -23 - 1 by norm_num, zpow_sub₀ (by norm_num : (2 : Rat) ≠ 0), zpow_one]
+  rw [e]
+  calc |roundF32 x - x| ≤ ulpF32 x / 2 := h1
+    _ ≤ |x| * pow2 (-23) / 2 := by linarith
+    _ = |x| * (pow2 (-23) / 2) := by ring
+
+example : pow2 (-126) ≤ |(1 / 3 : Rat)| := by
+  rw [pow2_eq_zpow, abs_of_pos (by norm_num)]
+  have : (2 : Rat) ^ (-126 : Int) ≤ (2 : Rat) ^ (-2 : Int) := zpow_le_zpow_right₀ (by norm_num) (by norm_num)
+  have h2 : (2 : Rat) ^ (-2 : Int) = 1 / 4 := by norm_num [zpow_neg]
+  linarith
+
 /-! ## The DateTime tag survives the round trip -/
 
 /-- `_get_page_timestamps(f"{a}:{b}") = (a, b)` for all non-negative int64 timestamps: the f-string written by
